@@ -312,6 +312,7 @@ PROPERTIES = {
             ('C17-R4', cflags.rule_case_emission, 'quick'),
             ('C05-R2', cglob.rule_case_fold_agreement, 'quick'),
             ('C17-R5', cflags.rule_sep_parametric, 'quick'),
+            ('C02-R1', frag.rule_attr_fragments, 'quick'),  # FORCEWIN: every fragment treats `/` and `\\` alike (round 4)
             ('C02-R1', frag.rule_site_templates, 'quick'),
             ('C20-R4', c20.rule_normalise_before_expand, 'quick'),
             ('C17-R7', cextra.rule_flag_mask_agreement, 'quick'),
